@@ -23,10 +23,15 @@
   `new_then_history_never_panics`: including the construction itself (free-all / allocate-all,
   every frame count incl. 0, arbitrary buffer contents).
 
-  Remaining (carried by the correspondence): `Init::Recover` (C05), `tree_stats`/`validate`/
-  `stats_at(order 0)`/`is_free`, and configurations outside `CfgOk` (none in the repository).
+  `tree_stats_never_panics`: the statistics program (tree pass and both passes over the slots)
+  never panics and reads only, in every invariant state. `Init::Recover`: C05
+  (`recover_then_history`).
+
+  Remaining (carried by the correspondence): `validate`, `stats_at(order 0)`, `is_free`, and
+  configurations outside `CfgOk` (none in the repository).
 -/
 import LLFreeV.Proofs.EndToEnd
+import LLFreeV.Proofs.TreeStats
 namespace LLFree.C09
 open LLFree
 
@@ -81,5 +86,11 @@ theorem new_then_history_never_panics (c : Cfg) (ok : CfgOk c) (init : Init) (hi
     ∃ m', runSolo (do initProg c init; runCalls c calls) m = (m', .ok ()) := by
   obtain ⟨m', _, h, _⟩ := LLFree.new_then_history ok init hinit calls hvalid m hs habs
   exact ⟨m', h⟩
+
+/-- `tree_stats()` never panics and reads only, in every state satisfying the upper invariant
+    (hence after every call of every sequential history of a constructed allocator) -/
+theorem tree_stats_never_panics (c : Cfg) (H : Nat → Prop) (ok : CfgOk c) (m : Mem) (inv : UpperInv0 c H m) :
+    Runs m (treeStats c) (fun _ m' => m = m') :=
+  (treeStats_spec c m ok inv).mono (fun _ _ h => h.1)
 
 end LLFree.C09
